@@ -42,10 +42,17 @@ def generate(src: Path, out: Path) -> list[str]:
         raise ExtractError('; '.join(errors))
     return changed
 
-try:
-    import extract_gens  # noqa: F401  (registers the generators)
-except ImportError:
-    pass
+def _load_generators():
+    """every harness/extract_*.py registers its generators with @generator(filename)"""
+    import importlib, sys
+    here = Path(__file__).resolve().parent
+    if str(here) not in sys.path:
+        sys.path.insert(0, str(here))
+    sys.modules.setdefault('extract', sys.modules[__name__])
+    for p in sorted(here.glob('extract_*.py')):
+        importlib.import_module(p.stem)
+
+_load_generators()
 
 if __name__ == '__main__':
     import sys
